@@ -619,22 +619,438 @@ Proof.
         intros Hx. apply elem_of_list_singleton in Hx. contradiction.
       - cbn. rewrite lookup_insert_ne by congruence. exact H2. }
     { exact HE1. }
-    exists n', (e :: evs). split; [rewrite Heq, Hr, <- app_assoc; reflexivity|].
+    exists n', (e :: evs). split; [etransitivity; [exact Heq|]; rewrite Hr, <- app_assoc; reflexivity|].
     split; [exact Hmp|]. split; [exact Hun|]. split; [exact Hmisc|].
     split; [rewrite <- app_assoc in HE'; exact HE'|]. split.
     + intros x s H. change (e :: evs) with ([e] ++ evs) in H. apply tev_in_app in H. destruct H as [H|H].
-      * apply tev_in_single in H. exists body, nw, sf. split; [left|].
+      * apply tev_in_single in H.
         assert (x = t /\ s = s1) as [-> ->].
         { destruct H as [-> | ->]; cbn in Hte; inversion Hte; auto. }
+        exists body, nw, sf. split; [left|].
         split; [exact Hp1|]. split; [exact Hd1|]. destruct nw.
         -- destruct Hkind as [-> Ho]. split; [left|exact Ho].
         -- subst e. left.
       * destruct (Hev1 x s H) as (body' & nw' & sf' & Hin & H1 & H2 & H3).
         exists body', nw', sf'. split; [right; exact Hin|]. split; [exact H1|]. split; [exact H2|].
         destruct nw'; [destruct H3; split; [right|]; assumption | right; exact H3].
-    + intros t' body' nw' sf' Hin. apply elem_of_cons in Hin. destruct Hin as [Heq|Hin].
-      * inversion Heq. subst. exists s1. split; [exact Hp1|]. split; [exact Hd1|].
+    + intros t' body' nw' sf' Hin. apply elem_of_cons in Hin. destruct Hin as [Heq'|Hin].
+      * inversion Heq'. subst t' body' nw' sf'. exists s1. split; [exact Hp1|]. split; [exact Hd1|].
         destruct nw; [destruct Hkind as [-> _]|subst e]; left.
       * destruct (Hev2 t' body' nw' sf' Hin) as (s & H1 & H2 & H3). exists s.
         split; [exact H1|]. split; [exact H2|]. destruct nw'; right; exact H3.
+Qed.
+
+(* ---------------------------------------------------------------------------------------- *)
+(* ProcessBlock: the reference pool along the block's transactions *)
+Definition blk_tx_pool (p : pool) (x : btx) : pool :=
+  let p1 := remove_tx p (fst (fst x)) in
+  fold_left remove_tx (conflicting_held p1 (fst (fst x)) (snd (fst x))) p1.
+Definition blk_tx_victims (p : pool) (x : btx) : list Z :=
+  conflicting_held (remove_tx p (fst (fst x))) (fst (fst x)) (snd (fst x)).
+
+Fixpoint blk_pool (p : pool) (txs : list btx) : pool :=
+  match txs with [] => p | x :: txs' => blk_pool (blk_tx_pool p x) txs' end.
+Fixpoint blk_victims (p : pool) (txs : list btx) : list Z :=
+  match txs with [] => [] | x :: txs' => blk_tx_victims p x ++ blk_victims (blk_tx_pool p x) txs' end.
+
+Lemma blk_tx_pool_elem p x e :
+  e ∈ blk_tx_pool p x <-> e ∈ p /\ fst e <> fst (fst x) /\ fst e ∉ blk_tx_victims p x.
+Proof.
+  unfold blk_tx_pool, blk_tx_victims. rewrite fold_remove_tx.
+  rewrite (elem_of_list_filter (fun e0 : Z * list Z => fst e0 ∉ _)), remove_tx_elem. tauto.
+Qed.
+
+Lemma blk_tx_pool_sub p x e : e ∈ blk_tx_pool p x -> e ∈ p.
+Proof. rewrite blk_tx_pool_elem. tauto. Qed.
+
+Lemma blk_tx_victims_elem p x c :
+  c ∈ blk_tx_victims p x <-> c <> fst (fst x) /\ exists bc, (c, bc) ∈ p /\ shares (snd (fst x)) bc.
+Proof.
+  unfold blk_tx_victims. rewrite conflicting_held_elem. split.
+  - intros (Hne & bc & Hin & Hs). apply remove_tx_elem in Hin. split; [exact Hne|]. exists bc. tauto.
+  - intros (Hne & bc & Hin & Hs). split; [exact Hne|]. exists bc. split; [|exact Hs].
+    apply remove_tx_elem. auto.
+Qed.
+
+Lemma blk_pool_sub txs : forall p e, e ∈ blk_pool p txs -> e ∈ p.
+Proof.
+  induction txs as [|x txs IH]; intros p e H; [exact H|].
+  simpl in H. apply IH in H. eapply blk_tx_pool_sub; eauto.
+Qed.
+
+Lemma blk_victims_elem txs : forall p c, c ∈ blk_victims p txs ->
+  exists x, x ∈ txs /\ c <> fst (fst x) /\ exists bc, (c, bc) ∈ p /\ shares (snd (fst x)) bc.
+Proof.
+  induction txs as [|x txs IH]; intros p c H; [apply elem_of_nil in H; destruct H|].
+  simpl in H. apply elem_of_app in H. destruct H as [H|H].
+  - apply blk_tx_victims_elem in H. exists x. split; [left|exact H].
+  - destruct (IH _ _ H) as (x' & Hx' & Hne & bc & Hin & Hs). exists x'. split; [right; exact Hx'|].
+    split; [exact Hne|]. exists bc. split; [|exact Hs]. eapply blk_tx_pool_sub; eauto.
+Qed.
+
+Lemma blk_pool_elem_not_victim txs : forall p e, e ∈ blk_pool p txs -> fst e ∉ blk_victims p txs.
+Proof.
+  induction txs as [|x txs IH]; intros p e H; [apply not_elem_of_nil|].
+  simpl in *. rewrite not_elem_of_app. split.
+  - apply blk_pool_sub in H. apply blk_tx_pool_elem in H. tauto.
+  - apply IH, H.
+Qed.
+
+Lemma blk_pool_not_tx txs : forall p e, e ∈ blk_pool p txs -> fst e ∉ txids txs.
+Proof.
+  induction txs as [|x txs IH]; intros p e H; [apply not_elem_of_nil|].
+  simpl in *. rewrite not_elem_of_cons. split.
+  - apply blk_pool_sub in H. apply blk_tx_pool_elem in H. tauto.
+  - apply IH in H. exact H.
+Qed.
+
+(* one block transaction at the level of the mempool *)
+Lemma blk_tx_model s p t body rel (sync : bool) :
+  R s p -> (forall b', (t, b') ∈ p -> b' = body) ->
+  exists s2 cs,
+    conflicting (if sync then fst (remove_transaction s t) else s) body = (s2, cs) /\
+    R s2 (blk_tx_pool p (t, body, rel)) /\ NoDup cs /\
+    (forall c, (c ∈ cs /\ c <> t) <-> c ∈ blk_tx_victims p (t, body, rel)) /\
+    snd (remove_transaction s t) = held p t.
+Proof.
+  intros HR Hbody.
+  destruct (R_remove s p t HR) as [HR1 Hheld].
+  set (s1 := if sync then fst (remove_transaction s t) else s).
+  set (p1 := if sync then remove_tx p t else p).
+  assert (HR1' : R s1 p1) by (subst s1 p1; destruct sync; assumption).
+  rewrite conflicting_unfold.
+  destruct (cf_outer_spec body s1 p1 [] HR1') as [H1 H2].
+  destruct (rcf_spec p1 (R_nodup _ _ HR1') body) as (G1 & G2 & G3).
+  destruct (fold_left cf_outer body (s1, [])) as [s2 cs].
+  destruct (fold_left rcf_outer body (p1, [])) as [p2 cs'].
+  simpl in H1, H2, G1, G2, G3. subst cs' p2.
+  exists s2, cs. split; [reflexivity|].
+  assert (Hnd : NoDup (map fst p)) by apply (R_nodup _ _ HR).
+  assert (Hnd1 : NoDup (map fst (remove_tx p t))) by (apply remove_tx_NoDup, Hnd).
+  assert (Hself : forall b', (t, b') ∈ p -> shares body b').
+  { intros b' Hin. pose proof (Hbody _ Hin). subst b'.
+    pose proof (R_nonempty _ _ HR) as Hne. rewrite Forall_forall in Hne.
+    specialize (Hne _ Hin). simpl in Hne. destruct body as [|o body]; [congruence|].
+    exists o. split; left; reflexivity. }
+  split; [|split; [exact G2|split; [|exact Hheld]]].
+  - replace (blk_tx_pool p (t, body, rel)) with (filter (fun e : Z * list Z => ~ shares body (snd e)) p1);
+      [exact H1|].
+    unfold blk_tx_pool. cbn [fst snd]. rewrite fold_remove_tx.
+    subst p1. destruct sync.
+    + apply filter_ext_in. intros [x bx] Hin. simpl. rewrite conflicting_held_elem. split.
+      * intros Hns (Hne & b' & Hin' & Hs).
+        assert (b' = bx) by (eapply NoDup_fst_inj; eauto). subst b'. contradiction.
+      * intros Hn Hs. apply Hn. apply remove_tx_elem in Hin as Hin2. simpl in Hin2. split; [tauto|].
+        exists bx. auto.
+    + set (CH := conflicting_held (remove_tx p t) t body).
+      assert (HCH : forall x, x ∈ CH <-> x <> t /\ exists b', (x, b') ∈ remove_tx p t /\ shares body b').
+      { intros x. apply conflicting_held_elem. }
+      clearbody CH. unfold remove_tx, pool. rewrite list_filter_filter.
+      apply filter_ext_in. intros [x bx] Hin. simpl. rewrite HCH. split.
+      * intros Hns. split.
+        -- intros (Hne & b' & Hin' & Hs). apply remove_tx_elem in Hin'. destruct Hin' as [Hin' _].
+           assert (b' = bx) by (apply (NoDup_fst_inj p x b' bx Hnd Hin' Hin)). subst b'. contradiction.
+        -- intros ->. apply Hns, Hself, Hin.
+      * intros [Hn Hne] Hs. apply Hn. split; [exact Hne|]. exists bx. split; [|exact Hs].
+        apply remove_tx_elem. auto.
+  - intros c. rewrite G3, blk_tx_victims_elem. cbn [fst snd]. subst p1. destruct sync.
+    + split.
+      * intros [(b' & Hin & Hs) Hne]. split; [exact Hne|]. exists b'. apply remove_tx_elem in Hin. tauto.
+      * intros (Hne & b' & Hin & Hs). split; [|exact Hne]. exists b'. split; [|exact Hs].
+        apply remove_tx_elem. auto.
+    + tauto.
+Qed.
+
+Lemma remove_one_spec x l : NoDup l ->
+  fst (remove_one x l) = bool_decide (x ∈ l) /\ NoDup (snd (remove_one x l)) /\
+  forall y, y ∈ snd (remove_one x l) <-> y ∈ l /\ y <> x.
+Proof.
+  intros Hnd. unfold remove_one. rewrite mem_decide. destruct (bool_decide (x ∈ l)) eqn:E.
+  - apply bool_decide_eq_true in E. cbn [fst snd]. split; [reflexivity|].
+    induction Hnd as [|a l Ha Hnd IH].
+    + apply elem_of_nil in E. destruct E.
+    + destruct (a =? x) eqn:Eax.
+      * apply Z.eqb_eq in Eax. subst a. split; [exact Hnd|]. intros y. rewrite elem_of_cons. split.
+        -- intros H. split; [tauto|]. intros ->. contradiction.
+        -- intros [[->|H] Hne]; [congruence|exact H].
+      * apply Z.eqb_neq in Eax. apply elem_of_cons in E. destruct E as [->|E]; [congruence|].
+        destruct (IH E) as [IH1 IH2]. split.
+        -- apply NoDup_cons. split; [|exact IH1]. rewrite IH2. tauto.
+        -- intros y. rewrite !elem_of_cons, IH2. split.
+           ++ intros [->|[H1 H2]]; [split; [auto|congruence]|tauto].
+           ++ intros [[->|H1] H2]; [auto|tauto].
+  - apply bool_decide_eq_false in E. cbn [fst snd]. split; [reflexivity|]. split; [exact Hnd|].
+    intros y. split; [|tauto]. intros H. split; [exact H|]. intros ->. contradiction.
+Qed.
+
+Lemma add_blocktx_fields n h t :
+  mp (add_blocktx n h t) = mp n /\ unconf (add_blocktx n h t) = unconf n /\
+  states (add_blocktx n h t) = states n /\ same_misc n (add_blocktx n h t).
+Proof. unfold add_blocktx. destruct (mem t _); repeat split. Qed.
+
+Lemma remove_blocktx_fields n h t :
+  mp (remove_blocktx n h t) = mp n /\ unconf (remove_blocktx n h t) = unconf n /\
+  states (remove_blocktx n h t) = states n /\ same_misc n (remove_blocktx n h t).
+Proof.
+  unfold remove_blocktx. destruct (blocktxs n !! h) as [l|]; [destruct (mem t l)|]; repeat split.
+Qed.
+
+Lemma held_sub (p p' : pool) t : (forall e, e ∈ p' -> e ∈ p) -> held p t = false -> held p' t = false.
+Proof.
+  intros Hsub H. apply held_false. intros b Hb. eapply held_false in H. apply H. apply Hsub. exact Hb.
+Qed.
+
+Lemma txids_elem (txs : list btx) t : t ∈ txids txs <-> exists body rel, (t, body, rel) ∈ txs.
+Proof.
+  unfold txids. rewrite elem_of_list_fmap. split.
+  - intros ([[t' body] rel] & -> & H). eauto.
+  - intros (body & rel & H). exists (t, body, rel). auto.
+Qed.
+
+(* ProcessBlock: the first loop *)
+Lemma block_txs_spec (PB : Z -> Prop) S0 h : forall txs n unc pending acc p,
+  R (mp n) p ->
+  (forall t body rel b', (t, body, rel) ∈ txs -> (t, b') ∈ p -> b' = body) ->
+  (forall c, c ∈ blk_victims p txs -> c ∉ txids txs) ->
+  NoDup (txids txs) -> NoDup unc ->
+  (forall t body, (t, body, true) ∈ txs -> t ∉ unc -> held p t = false) ->
+  (forall c, c ∈ unc -> is_Some (states n !! c)) ->
+  (forall c bc, (c, bc) ∈ p -> c ∉ tkeys acc) ->
+  Ext PB S0 (states n) acc ->
+  exists n' unc' pend evs,
+    block_txs n h unc txs pending acc = Some (n', unc', pending ++ pend, acc ++ evs) /\
+    unconf n' = unconf n /\ same_misc n n' /\
+    R (mp n') (blk_pool p txs) /\
+    Ext PB S0 (states n') (acc ++ evs) /\
+    (forall x, is_Some (states n !! x) -> is_Some (states n' !! x)) /\
+    (forall x, states n' !! x = None -> states n !! x = None) /\
+    (forall x, x ∈ unc' <-> x ∈ unc /\ x ∉ txids txs) /\
+    (forall x s, tev_in evs x s ->
+       x ∈ blk_victims p txs /\ x ∈ unc /\ EUpdate x s ∈ evs /\
+       s_cancel s = true /\ s_unsafe s = true /\ s_safe s = false /\
+       exists so, S0 !! x = Some so /\ s_proof s = s_proof so) /\
+    (forall c, c ∈ blk_victims p txs -> c ∈ unc -> exists s, EUpdate c s ∈ evs) /\
+    NoDup (map ptx pend) /\
+    (forall t body nw sf, (t, body, nw, sf) ∈ pend ->
+       exists rel, (t, body, rel) ∈ txs /\ (if nw : bool then rel = true /\ t ∉ unc else t ∈ unc)) /\
+    (forall t body rel, (t, body, rel) ∈ txs ->
+       if bool_decide (t ∈ unc) then (t, body, false, true) ∈ pend
+       else rel = true -> exists sf, (t, body, true, sf) ∈ pend).
+Proof.
+  induction txs as [|[[t body] rel] txs IH];
+    intros n unc pending acc p HR Hcons Hvic Hndt Hndu Hnmp Hust Hfr HE.
+  - exists n, unc, [], []. rewrite !app_nil_r. simpl.
+    split; [reflexivity|]. split; [reflexivity|]. split; [apply same_misc_refl|].
+    split; [exact HR|]. split; [exact HE|]. split; [auto|]. split; [auto|].
+    split; [intros x; split; [intros H; split; [exact H|apply not_elem_of_nil]|tauto]|].
+    split; [intros x s H; destruct (tev_in_nil _ _ H)|].
+    split; [intros c H; apply elem_of_nil in H; destruct H|].
+    split; [constructor|].
+    split; [intros t body nw sf H; apply elem_of_nil in H; destruct H|].
+    intros t body rel H. apply elem_of_nil in H. destruct H.
+  - cbn [txids map fst] in Hndt. apply NoDup_cons in Hndt. destruct Hndt as [Htni Hndt].
+    fold (txids txs) in Htni, Hndt.
+    destruct (remove_one_spec t unc Hndu) as (Hio & Hndu1 & Hu1).
+    cbn [block_txs]. destruct (remove_one t unc) as [in_unc unc1]. cbn [fst snd] in Hio, Hndu1, Hu1.
+    subst in_unc.
+    destruct (blk_tx_model (mp n) p t body rel (insync n) HR) as (s2 & cs & Hcf & HR2 & Hndcs & Hcs & Hheld).
+    { intros b' Hb'. eapply Hcons; [left|exact Hb']. }
+    set (p' := blk_tx_pool p (t, body, rel)) in *.
+    assert (Hsub : forall e, e ∈ p' -> e ∈ p) by (intros e; apply blk_tx_pool_sub).
+    assert (Hvcur : forall c, c ∈ cs -> c <> t -> exists bc, (c, bc) ∈ p).
+    { intros c Hc Hne. assert (Hv : c ∈ blk_tx_victims p (t, body, rel)) by (apply Hcs; auto).
+      apply blk_tx_victims_elem in Hv. destruct Hv as (_ & bc & Hin & _). eauto. }
+    (* continuation after the mempool part *)
+    assert (Cont : forall n2 (in_mp : bool),
+      mp n2 = s2 -> unconf n2 = unconf n -> states n2 = states n -> same_misc n n2 ->
+      (in_mp = true -> held p t = true) ->
+      exists n' unc' pend evs,
+        match cancel_conflicts n2 t unc1 cs true acc with
+        | Some (n3, is_safe, acc1) =>
+            if bool_decide (t ∈ unc)
+            then block_txs n3 h unc1 txs (pending ++ [(t, body, false, true)]) acc1
+            else if negb in_mp
+                 then (if rel
+                       then block_txs (add_blocktx n3 h t) h unc1 txs (pending ++ [(t, body, true, is_safe)]) acc1
+                       else block_txs (remove_blocktx n3 h t) h unc1 txs pending acc1)
+                 else block_txs n3 h unc1 txs pending acc1
+        | None => None
+        end = Some (n', unc', pending ++ pend, acc ++ evs) /\
+        unconf n' = unconf n /\ same_misc n n' /\
+        R (mp n') (blk_pool p ((t, body, rel) :: txs)) /\
+        Ext PB S0 (states n') (acc ++ evs) /\
+        (forall x, is_Some (states n !! x) -> is_Some (states n' !! x)) /\
+        (forall x, states n' !! x = None -> states n !! x = None) /\
+        (forall x, x ∈ unc' <-> x ∈ unc /\ x ∉ txids ((t, body, rel) :: txs)) /\
+        (forall x s, tev_in evs x s ->
+           x ∈ blk_victims p ((t, body, rel) :: txs) /\ x ∈ unc /\ EUpdate x s ∈ evs /\
+           s_cancel s = true /\ s_unsafe s = true /\ s_safe s = false /\
+           exists so, S0 !! x = Some so /\ s_proof s = s_proof so) /\
+        (forall c, c ∈ blk_victims p ((t, body, rel) :: txs) -> c ∈ unc -> exists s, EUpdate c s ∈ evs) /\
+        NoDup (map ptx pend) /\
+        (forall t' body' nw sf, (t', body', nw, sf) ∈ pend ->
+           exists rel', (t', body', rel') ∈ (t, body, rel) :: txs /\
+                        (if nw : bool then rel' = true /\ t' ∉ unc else t' ∈ unc)) /\
+        (forall t' body' rel', (t', body', rel') ∈ (t, body, rel) :: txs ->
+           if bool_decide (t' ∈ unc) then (t', body', false, true) ∈ pend
+           else rel' = true -> exists sf, (t', body', true, sf) ∈ pend)).
+    { intros n2 in_mp Hmp2 Hun2 Hst2 Hmisc2 Hinmp.
+      destruct (cancel_conflicts_spec PB S0 t unc1 cs Hndcs n2 true acc) as
+        (n3 & safe' & evs1 & Hcc & Hmp3 & Hun3 & Hmisc3 & HE3 & Hst3 & Hst3' & Hev1 & Hev2).
+      { intros c Hc Hne Hu. destruct (Hvcur c Hc Hne) as (bc & Hbc). split; [eapply Hfr; eauto|].
+        rewrite Hst2. apply Hust. apply Hu1 in Hu. tauto. }
+      { rewrite Hst2. exact HE. }
+      rewrite Hcc.
+      (* the recursive call *)
+      assert (Rec : forall n4 (pc : option pentry),
+        mp n4 = mp n3 -> unconf n4 = unconf n3 -> states n4 = states n3 -> same_misc n3 n4 ->
+        (forall e, pc = Some e ->
+           (e = (t, body, false, true) /\ t ∈ unc) \/
+           (exists sf, e = (t, body, true, sf)) /\ rel = true /\ t ∉ unc) ->
+        (if bool_decide (t ∈ unc) then pc = Some (t, body, false, true)
+         else rel = true -> exists sf, pc = Some (t, body, true, sf)) ->
+        exists n' unc' pend evs,
+          block_txs n4 h unc1 txs (match pc with Some e => pending ++ [e] | None => pending end) (acc ++ evs1)
+            = Some (n', unc', pending ++ pend, acc ++ evs) /\
+          unconf n' = unconf n /\ same_misc n n' /\
+          R (mp n') (blk_pool p ((t, body, rel) :: txs)) /\
+          Ext PB S0 (states n') (acc ++ evs) /\
+          (forall x, is_Some (states n !! x) -> is_Some (states n' !! x)) /\
+          (forall x, states n' !! x = None -> states n !! x = None) /\
+          (forall x, x ∈ unc' <-> x ∈ unc /\ x ∉ txids ((t, body, rel) :: txs)) /\
+          (forall x s, tev_in evs x s ->
+             x ∈ blk_victims p ((t, body, rel) :: txs) /\ x ∈ unc /\ EUpdate x s ∈ evs /\
+             s_cancel s = true /\ s_unsafe s = true /\ s_safe s = false /\
+             exists so, S0 !! x = Some so /\ s_proof s = s_proof so) /\
+          (forall c, c ∈ blk_victims p ((t, body, rel) :: txs) -> c ∈ unc -> exists s, EUpdate c s ∈ evs) /\
+          NoDup (map ptx pend) /\
+          (forall t' body' nw sf, (t', body', nw, sf) ∈ pend ->
+             exists rel', (t', body', rel') ∈ (t, body, rel) :: txs /\
+                          (if nw : bool then rel' = true /\ t' ∉ unc else t' ∈ unc)) /\
+          (forall t' body' rel', (t', body', rel') ∈ (t, body, rel) :: txs ->
+             if bool_decide (t' ∈ unc) then (t', body', false, true) ∈ pend
+             else rel' = true -> exists sf, (t', body', true, sf) ∈ pend)).
+      { intros n4 pc Hmp4 Hun4 Hst4 Hmisc4 Hpc1 Hpc3.
+        set (pcl := match pc with Some e => [e] | None => [] end).
+        assert (Hpp : match pc with Some e => pending ++ [e] | None => pending end = pending ++ pcl).
+        { subst pcl. destruct pc; [reflexivity|rewrite app_nil_r; reflexivity]. }
+        rewrite Hpp. clear Hpp.
+        destruct (IH n4 unc1 (pending ++ pcl) (acc ++ evs1) p') as
+          (n' & unc' & pend & evs & Hbt & Hun' & Hmisc' & HR' & HE' & Hst' & Hst'' & Hunc' & Hevs1 & Hevs2 & Hndp & Hp1 & Hp2).
+        { rewrite Hmp4, Hmp3, Hmp2. exact HR2. }
+        { intros t' body' rel' b' Hin Hb'. eapply Hcons; [right; exact Hin|apply Hsub, Hb']. }
+        { intros c Hc. assert (Hc' : c ∉ txids ((t, body, rel) :: txs)).
+          { apply Hvic. simpl. apply elem_of_app. right. exact Hc. }
+          cbn [txids map] in Hc'. apply not_elem_of_cons in Hc'. tauto. }
+        { exact Hndt. }
+        { exact Hndu1. }
+        { intros t' body' Hin Hnu. apply (held_sub p p' t' Hsub). eapply Hnmp; [right; exact Hin|].
+          intros Hu. apply Hnu, Hu1. split; [exact Hu|]. intros ->.
+          apply Htni, txids_elem. eauto. }
+        { intros c Hc. rewrite Hst4. apply Hst3. rewrite Hst2. apply Hust. apply Hu1 in Hc. tauto. }
+        { intros c bc Hin. rewrite tkeys_app, not_elem_of_app. split; [eapply Hfr, Hsub; eauto|].
+          intros Hk. apply tkeys_elem in Hk. destruct Hk as (s & Hk).
+          destruct (Hev1 c s Hk) as (H1 & H2 & _).
+          apply blk_tx_pool_elem in Hin. destruct Hin as (_ & _ & Hnv). apply Hnv. apply Hcs. auto. }
+        { rewrite Hst4. exact HE3. }
+        exists n', unc', (pcl ++ pend), (evs1 ++ evs).
+        split; [etransitivity; [exact Hbt|]; rewrite <- !app_assoc; reflexivity|].
+        split; [congruence|].
+        split; [eapply same_misc_trans; [|exact Hmisc']; eapply same_misc_trans; [|exact Hmisc4];
+                eapply same_misc_trans; [exact Hmisc2|exact Hmisc3]|].
+        split; [exact HR'|].
+        split; [rewrite app_assoc; exact HE'|].
+        split; [intros x Hx; apply Hst'; rewrite Hst4; apply Hst3; rewrite Hst2; exact Hx|].
+        split; [intros x Hx; apply Hst'' in Hx; rewrite Hst4 in Hx; apply Hst3' in Hx; rewrite Hst2 in Hx; exact Hx|].
+        split.
+        { intros x. rewrite Hunc', Hu1. cbn [txids map fst]. rewrite not_elem_of_cons. fold (txids txs). tauto. }
+        split.
+        { intros x s H. apply tev_in_app in H. destruct H as [H|H].
+          - destruct (Hev1 x s H) as (H1 & H2 & H3 & H4 & H5 & H6 & H7 & so & H8 & H9).
+            split; [simpl; apply elem_of_app; left; apply Hcs; auto|].
+            split; [apply Hu1 in H3; tauto|]. split; [apply elem_of_app; left; exact H4|].
+            repeat (split; [assumption|]). exists so. split; [|exact H9].
+            destruct (Hvcur x H1 H2) as (bc & Hbc).
+            rewrite <- (x_out _ _ _ _ HE x (Hfr _ _ Hbc)). rewrite <- Hst2. exact H8.
+          - destruct (Hevs1 x s H) as (H1 & H2 & H3 & H4).
+            split; [simpl; apply elem_of_app; right; exact H1|].
+            split; [apply Hu1 in H2; tauto|]. split; [apply elem_of_app; right; exact H3|exact H4]. }
+        split.
+        { intros c Hc Hu. simpl in Hc. apply elem_of_app in Hc. destruct Hc as [Hc|Hc].
+          - apply Hcs in Hc. destruct Hc as [Hc Hne]. destruct (Hev2 c Hc Hne) as (s & Hs).
+            { apply Hu1. auto. }
+            exists s. apply elem_of_app. left. exact Hs.
+          - assert (Hne : c <> t).
+            { assert (Hc' : c ∉ txids ((t, body, rel) :: txs)).
+              { apply Hvic. simpl. apply elem_of_app. right. exact Hc. }
+              cbn [txids map fst] in Hc'. apply not_elem_of_cons in Hc'. tauto. }
+            destruct (Hevs2 c Hc) as (s & Hs); [apply Hu1; auto|].
+            exists s. apply elem_of_app. right. exact Hs. }
+        assert (Hpend_tx : forall e, e ∈ pend -> ptx e ∈ txids txs).
+        { intros [[[t' body'] nw] sf] Hin. destruct (Hp1 _ _ _ _ Hin) as (rel' & Hin' & _).
+          apply txids_elem. cbn. eauto. }
+        split.
+        { rewrite map_app. apply NoDup_app. split; [|split; [|exact Hndp]].
+          - subst pcl. destruct pc; [apply NoDup_singleton|constructor].
+          - intros x Hx Hx'. apply elem_of_list_fmap in Hx'. destruct Hx' as (e' & -> & He').
+            apply Hpend_tx in He'. subst pcl. destruct pc as [e|]; [|apply elem_of_nil in Hx; exact Hx].
+            apply elem_of_list_singleton in Hx.
+            destruct (Hpc1 e eq_refl) as [[-> _]|[(sf & ->) _]]; cbn in Hx; rewrite Hx in He'; contradiction. }
+        split.
+        { intros t' body' nw sf Hin. apply elem_of_app in Hin. destruct Hin as [Hin|Hin].
+          - subst pcl. destruct pc as [e|]; [|apply elem_of_nil in Hin; destruct Hin].
+            apply elem_of_list_singleton in Hin. subst e.
+            destruct (Hpc1 _ eq_refl) as [[Heq Hu]|[(sf' & Heq) [Hrel Hu]]]; inversion Heq; subst;
+              (eexists; split; [left|]); cbn; auto.
+          - destruct (Hp1 _ _ _ _ Hin) as (rel' & Hin' & Hc). exists rel'. split; [right; exact Hin'|].
+            assert (Hne : t' <> t).
+            { intros ->. apply Htni, txids_elem. eauto. }
+            destruct nw.
+            + destruct Hc as [Hc1 Hc2]. split; [exact Hc1|]. intros Hu. apply Hc2, Hu1. auto.
+            + apply Hu1 in Hc. tauto. }
+        { intros t' body' rel' Hin. apply elem_of_cons in Hin. destruct Hin as [Heq|Hin].
+          - inversion Heq. subst t' body' rel'. destruct (bool_decide (t ∈ unc)).
+            + apply elem_of_app. left. subst pcl. rewrite Hpc3. left.
+            + intros Hrel. destruct (Hpc3 Hrel) as (sf & Hsf). exists sf. apply elem_of_app. left.
+              subst pcl. rewrite Hsf. left.
+          - assert (Hne : t' <> t).
+            { intros ->. apply Htni, txids_elem. eauto. }
+            specialize (Hp2 _ _ _ Hin).
+            assert (Hbd : bool_decide (t' ∈ unc1) = bool_decide (t' ∈ unc)).
+            { apply bool_decide_ext. rewrite Hu1. tauto. }
+            rewrite Hbd in Hp2. destruct (bool_decide (t' ∈ unc)).
+            + apply elem_of_app. right. exact Hp2.
+            + intros Hrel. destruct (Hp2 Hrel) as (sf & Hsf). exists sf. apply elem_of_app. right. exact Hsf. } }
+      destruct (bool_decide (t ∈ unc)) eqn:Etu.
+      - apply bool_decide_eq_true in Etu.
+        apply (Rec n3 (Some (t, body, false, true))); try reflexivity.
+        + apply same_misc_refl.
+        + intros e He. inversion He. subst. left. auto.
+      - apply bool_decide_eq_false in Etu. destruct in_mp; cbn [negb].
+        + assert (Hrel : rel = false).
+          { destruct rel; [|reflexivity]. rewrite (Hnmp t body) in Hinmp; [|left|exact Etu].
+            specialize (Hinmp eq_refl). discriminate. }
+          apply (Rec n3 None); try reflexivity.
+          * apply same_misc_refl.
+          * intros e He. discriminate.
+          * rewrite Hrel. discriminate.
+        + destruct rel.
+          * destruct (add_blocktx_fields n3 h t) as (A1 & A2 & A3 & A4).
+            apply (Rec (add_blocktx n3 h t) (Some (t, body, true, safe'))); try assumption.
+            -- intros e He. inversion He. subst. right. split; [eauto|]. auto.
+            -- intros _. eauto.
+          * destruct (remove_blocktx_fields n3 h t) as (A1 & A2 & A3 & A4).
+            apply (Rec (remove_blocktx n3 h t) None); try assumption.
+            -- intros e He. discriminate.
+            -- discriminate. }
+    destruct (insync n) eqn:Esync.
+    + destruct (remove_transaction (mp n) t) as [m bmp] eqn:Erm. cbn [fst snd] in Hcf, Hheld.
+      cbn [mp set_mp]. rewrite Hcf.
+      apply (Cont (set_mp (set_mp n m) s2) bmp); try reflexivity.
+      * repeat split.
+      * intros ->. symmetry. exact Hheld.
+    + cbn [mp set_mp]. rewrite Hcf.
+      apply (Cont (set_mp n s2) false); try reflexivity.
+      * repeat split.
+      * discriminate.
 Qed.
